@@ -7,6 +7,8 @@ import PyamgV.Proofs.C15Store
 import PyamgV.Proofs.ExtSpmmMat
 import PyamgV.Proofs.ExtSpmmHier
 import PyamgV.Proofs.ExtC15CanonHier
+import PyamgV.Proofs.ExtC04YConv
+import PyamgV.Proofs.ExtC04YPairwise
 
 /-! # C15 — setup is pure and reproducible; built solvers are reusable
 
@@ -170,6 +172,58 @@ restate canon_driver_unique := PyamgV.Canon.CRatInst.canonNZC_unique
 restate canon_driver_canonical := PyamgV.Canon.CRatInst.canonNZC_canonical
 restate canon_driver_convert := PyamgV.Canon.CRatInst.toCsrC_unique
 
+/-! ### LIL and DIA input; the pairwise path with any number of matchings (extension E54).  `Model/ExtC04YConv.lean` models
+`lil.tocsr()` (the per-row lists concatenated) and `dia.tocsr()` (kernel `dia_tocsr` on `argsort(offsets)`: row by row, the
+diagonals by increasing offset, padding of the data array ignored, exact zeros dropped); `InputX` = `Input` + these two.
+`Model/ExtC04YPairwise.lean` models `pairwise_aggregation(A, matchings=m, compute_P=True)` for any `m` (strength, kernel,
+`T_temp`, `T @ T_temp`, `T_temp.T @ Ac @ T_temp` in `csr_matmat`'s storage order) + the stall test; `m = 2` is the default of
+`pairwise_solver`.  The driver runs both (`c04y_convert`, `c04y_pw`) against scipy / pyamg, array by array. -/
+/-- LIL -> CSR and DIA -> CSR preserve the dense meaning (DIA: out-of-range padding and columns beyond `L` ignored) -/
+restate convert_lil := PyamgV.ConvX.val_lilToCsr
+restate convert_dia := PyamgV.ConvX.val_diaToCsr
+/-- ... and return well-formed CSR arrays -/
+restate convert_lil_well_formed := PyamgV.ConvX.lilToCsr_wf
+restate convert_dia_well_formed := PyamgV.ConvX.diaToCsr_wf
+/-- DIA ALWAYS converts to the canonical form without stored zeros ... -/
+restate convert_dia_canonical := PyamgV.ConvX.diaToCsr_canonical
+/-- ... so its arrays are a function of the dense meaning: any `L`, any padding, any order of the offsets, extra zero diagonals -/
+restate convert_dia_arrays_unique := PyamgV.ConvX.diaToCsr_unique
+/-- LIL converts to the canonical form iff every index list is strictly sorted (SciPy's invariant of the format) -/
+restate convert_lil_canonical_iff := PyamgV.ConvX.lilToCsr_canonical_iff
+/-- stored patterns: LIL keeps what its index lists hold (explicit zeros included), DIA stores exactly the non-zeros -/
+restate convert_lil_pattern := PyamgV.ConvX.stored_lilToCsr
+restate convert_dia_pattern := PyamgV.ConvX.stored_diaToCsr
+/-- `argsort(offsets)` of the model: a permutation of the diagonals, strictly increasing offsets -/
+restate dia_order_permutation := PyamgV.ConvX.Dia.order_perm
+restate dia_order_sorted := PyamgV.ConvX.Dia.order_sorted
+/-- the statements of E27 / E41 for all seven input formats -/
+restate convert_all_preserve_meaning := PyamgV.ConvX.InputX.val_toCsr
+restate convert_all_preserve_matrix := PyamgV.ConvX.InputX.mat_toCsr
+restate convert_all_well_formed := PyamgV.ConvX.InputX.toCsr_wf
+restate convert_all_canonical := PyamgV.ConvX.toCsr_canonicalX
+restate convert_all_pattern := PyamgV.ConvX.stored_toCsrX
+restate convert_all_arrays_unique := PyamgV.ConvX.toCsr_arrays_uniqueX
+restate galerkin_format_independent_all := PyamgV.ConvX.galerkin_input_independentX
+restate hierarchy_input_independent_all := PyamgV.ConvX.hierarchy_input_independentX
+restate hierarchy_format_independent_canonical_all := PyamgV.ConvX.hierarchy_format_independent_canonicalX
+/-- the instances the driver executes (`c04y_convert`) -/
+restate convert_driver_all := PyamgV.ConvX.CRatInst.valC_toCsrXC
+restate convert_driver_dia_canonical := PyamgV.ConvX.CRatInst.toCsrXC_dia_canonical
+restate convert_driver_lil_canonical := PyamgV.ConvX.CRatInst.toCsrXC_lil_canonical
+/-- the pairwise path with `m` matchings returns a well-formed `n x k` prolongator, `k < n` -/
+restate pairwise_matchings_step_spec := PyamgV.CanonM.pwMRaw_spec
+/-- with one matching it is E41's path -/
+restate pairwise_one_matching_same := PyamgV.CanonM.pwMRaw_one
+/-- on canonical input without stored zeros the step behind the canonicaliser is the array-level step -/
+restate pairwise_matchings_step_raw := PyamgV.CanonM.pwMStep_eq_raw
+/-- `PStepOK` discharged for any number of matchings ... -/
+restate pairwise_matchings_pstep_ok := PyamgV.CanonM.pwMStep_ok
+/-- ... hence `hierarchy_format_independent` without hypothesis for the DEFAULT options of `pairwise_solver` (`m = 2`): any two
+stored forms of one matrix / any two of the seven input formats give level by level the same dense meaning -/
+restate pairwise_matchings_hierarchy_format_independent := PyamgV.CanonM.pairwiseM_hierarchy_format_independent
+restate pairwise_matchings_hierarchy_input_independent := PyamgV.CanonM.pairwiseM_hierarchy_input_independent
+restate pairwise_matchings_hierarchy_input_independent_all := PyamgV.CanonM.pairwiseM_hierarchy_input_independentX
+
 /-! non-vacuity -/
 section spmm_examples
 open PyamgV.Spmm
@@ -222,6 +276,29 @@ example : (pwStep "min" (1 / 1000000) (1 / 4) lapQ).map (fun P => (P.rows, P.col
     ∧ (canonNZ lapQmessy).ap = (canonNZ lapQ).ap ∧ (canonNZ lapQmessy).aj = (canonNZ lapQ).aj
     ∧ (canonNZ lapQmessy).ax = (canonNZ lapQ).ax ∧ (canonNZ lapQ).aj = lapQ.aj := by decide +kernel
 end canon_examples
+section e54_examples
+open PyamgV.Spmm PyamgV.Canon PyamgV.ConvX PyamgV.CanonM
+/-- `[[0, 1, 0, 0], [4, 0, 3, 0], [0, 5, 0, 9]]` as DIA with `L = 5 > cols`, offsets unsorted `[1, -1]` and junk in the padding:
+`data[0, 0] = 5` belongs to row -1, `data[0, 4] = 7` to column 4, `data[1, 3] = data[1, 4] = 8` to rows 4 and 5 -/
+def diaX : InputX CRat := .dia ⟨3, 4, 5, #[1, -1], #[⟨5,0⟩, ⟨1,0⟩, ⟨3,0⟩, ⟨9,0⟩, ⟨7,0⟩, ⟨4,0⟩, ⟨5,0⟩, ⟨0,0⟩, ⟨8,0⟩, ⟨8,0⟩]⟩
+/-- the same matrix as LIL with an explicit zero at (2, 2), and the same as a dense array -/
+def lilX : InputX CRat := .lil ⟨3, 4, #[[1], [0, 2], [1, 2, 3]], #[[⟨1,0⟩], [⟨4,0⟩, ⟨3,0⟩], [⟨5,0⟩, ⟨0,0⟩, ⟨9,0⟩]]⟩
+def denseX' : InputX CRat := .base (.dense ⟨3, 4, #[⟨0,0⟩, ⟨1,0⟩, ⟨0,0⟩, ⟨0,0⟩, ⟨4,0⟩, ⟨0,0⟩, ⟨3,0⟩, ⟨0,0⟩, ⟨0,0⟩, ⟨5,0⟩, ⟨0,0⟩, ⟨9,0⟩]⟩)
+example : diaX.wf = true ∧ lilX.wf = true ∧ denseX'.wf = true := by decide
+-- what SciPy returns: DIA sorted by column, the padding (and the stored zero `data[1, 2]`) gone; LIL keeps its explicit zero
+example : (toCsrXC diaX).ap = #[0, 1, 3, 5] ∧ (toCsrXC diaX).aj = #[1, 0, 2, 1, 3]
+    ∧ (toCsrXC diaX).ax = #[⟨1,0⟩, ⟨4,0⟩, ⟨3,0⟩, ⟨5,0⟩, ⟨9,0⟩] := by decide +kernel
+example : (toCsrXC lilX).aj = #[1, 0, 2, 1, 2, 3] ∧ isCanonicalC (toCsrXC lilX) = true
+    ∧ noStoredZerosC (toCsrXC lilX) = false := by decide +kernel
+-- DIA and dense input reach CSR as identical arrays; all three have the same dense meaning
+example : (toCsrXC diaX).ap = (toCsrXC denseX').ap ∧ (toCsrXC diaX).aj = (toCsrXC denseX').aj
+    ∧ (toCsrXC diaX).ax = (toCsrXC denseX').ax ∧ toDenseC (toCsrXC lilX) = toDenseC (toCsrXC denseX') := by decide +kernel
+-- two matchings on `tridiag(-1, 2, -1)` of size 4 (the docstring example of `pairwise_aggregation`): one aggregate; P is 4 x 1
+example : (pwMRaw 2 "min" (1 / 1000000) (1 / 4) lapQ).map (fun P => (P.rows, P.cols, P.aj)) = some (4, 1, #[0, 0, 0, 0])
+    ∧ (pwMRaw 1 "min" (1 / 1000000) (1 / 4) lapQ).map (fun P => (P.rows, P.cols, P.aj)) = some (4, 2, #[0, 0, 1, 1])
+    ∧ (pwMStep 2 "min" (1 / 1000000) (1 / 4) lapQmessy).map (fun P => P.aj) = some #[0, 0, 0, 0] := by decide +kernel
+end e54_examples
+
 open PyamgV.C15 in
 /-- a symbolic coarse solver: `factor = id`, `apply f b = (f, b)` -/
 def demoOps : Ops Nat (Nat × Nat) Nat :=
